@@ -3138,8 +3138,13 @@ def _py_measure(e, param="data"):
         kind, e = "dim0", e.args[0]
     elif isinstance(e, ast.Subscript) and const_value(e.slice) == 0 and isinstance(e.value, ast.Attribute) and e.value.attr == "shape":
         kind, e = "dim0", e.value.value
-    while isinstance(e, ast.Call) and isinstance(e.func, ast.Attribute) and e.func.attr in ("view", "copy"):
-        e = e.func.value
+    while isinstance(e, ast.Call) and isinstance(e.func, ast.Attribute):
+        if e.func.attr in ("view", "copy"):
+            e = e.func.value
+        elif e.func.attr in ("ascontiguousarray", "asarray", "asanyarray", "require") and len(e.args) == 1 and not any(k.arg == "dtype" for k in e.keywords):
+            e = e.args[0]        # same elements in the same shape
+        else:
+            break
     return kind if isinstance(e, ast.Name) and e.id == param else None
 
 
@@ -3500,8 +3505,13 @@ def _chunk_len(x, param="data"):
         e = x.args[0]
     elif isinstance(x, ast.Subscript) and const_value(x.slice) == 0 and isinstance(x.value, ast.Attribute) and x.value.attr == "shape":
         e = x.value.value
-    while isinstance(e, ast.Call) and isinstance(e.func, ast.Attribute) and e.func.attr in ("view", "copy"):
-        e = e.func.value
+    while isinstance(e, ast.Call) and isinstance(e.func, ast.Attribute):
+        if e.func.attr in ("view", "copy"):
+            e = e.func.value
+        elif e.func.attr in ("ascontiguousarray", "asarray", "asanyarray", "require") and len(e.args) == 1 and not any(k.arg == "dtype" for k in e.keywords):
+            e = e.args[0]        # numpy functions that keep every element: the size is the operand's
+        else:
+            break
     return isinstance(e, ast.Name) and e.id == param
 
 
